@@ -15314,3 +15314,94 @@ func E11SVGAttributeIndependence(c *core.Ctx, r *core.Report) {
 	r.Count("E11.svg-attribute-cases", n)
 	r.Floor("E11.svg-attribute-cases", 10)
 }
+
+// E11SVGDashUnits: the importer hands the renderers dashes in the unit they expect.
+func E11SVGDashUnits(c *core.Ctx, r *core.Report) {
+	r.Rule("E11.svg-dash-units", "Style.Dashes and Style.DashOffset count in stroke widths: the back-ends multiply them by the stroke width (ScaleDash(style.StrokeWidth, …)) and the SVG writer emits the products, which is what SVG means by stroke-dasharray. The importer therefore divides: every function of svg.go that draws a shape (calls Context.DrawPath) first passes the style's dash offset and array through ScaleDash with a scale that is the reciprocal of the stroke width (`1.0/w` with w read from Style.StrokeWidth). Without it an imported `stroke-width=\"4\" stroke-dasharray=\"10 10\"` is drawn with dashes of 40, and the library's own SVG output does not read back to an equivalent drawing")
+	p := c.MustPkg("")
+	info := p.TypesInfo
+	n := 0
+	for _, fd := range core.AllFuncDecls(p) {
+		if fd.Body == nil || filepath.Base(c.Fset.Position(fd.Pos()).Filename) != "svg.go" {
+			continue
+		}
+		var firstDraw token.Pos
+		ast.Inspect(fd.Body, func(m ast.Node) bool {
+			if call, ok := m.(*ast.CallExpr); ok {
+				if f := core.CalleeOf(info, call); f != nil && f.Name() == "DrawPath" && core.QualifiedCallee(f) == core.Module+".Context.DrawPath" {
+					if firstDraw == 0 || call.Pos() < firstDraw {
+						firstDraw = call.Pos()
+					}
+				}
+			}
+			return true
+		})
+		if firstDraw == 0 {
+			continue
+		}
+		n++
+		key := fmt.Sprintf("canvas.%s|dashes divided by the stroke width before a shape is drawn", core.FuncName(fd))
+		// width locals: assigned from a selector …StrokeWidth
+		widths := map[types.Object]bool{}
+		ast.Inspect(fd.Body, func(m ast.Node) bool {
+			as, ok := m.(*ast.AssignStmt)
+			if !ok || len(as.Lhs) != len(as.Rhs) {
+				return true
+			}
+			for i, rhs := range as.Rhs {
+				if se, ok := core.Unparen(rhs).(*ast.SelectorExpr); ok && se.Sel.Name == "StrokeWidth" {
+					if id, ok := as.Lhs[i].(*ast.Ident); ok {
+						widths[core.ObjOf(info, id)] = true
+					}
+				}
+			}
+			return true
+		})
+		isWidth := func(e ast.Expr) bool {
+			e = core.Unparen(e)
+			if se, ok := e.(*ast.SelectorExpr); ok && se.Sel.Name == "StrokeWidth" {
+				return true
+			}
+			if id, ok := e.(*ast.Ident); ok && widths[core.ObjOf(info, id)] {
+				return true
+			}
+			return false
+		}
+		good := false
+		ast.Inspect(fd.Body, func(m ast.Node) bool {
+			as, ok := m.(*ast.AssignStmt)
+			if !ok || as.Pos() >= firstDraw || len(as.Rhs) != 1 || len(as.Lhs) != 2 {
+				return true
+			}
+			call, ok := core.Unparen(as.Rhs[0]).(*ast.CallExpr)
+			if !ok || len(call.Args) != 3 {
+				return true
+			}
+			if f := core.CalleeOf(info, call); f == nil || f.Name() != "ScaleDash" {
+				return true
+			}
+			q, ok := core.Unparen(call.Args[0]).(*ast.BinaryExpr)
+			if !ok || q.Op != token.QUO || !isWidth(q.Y) {
+				return true
+			}
+			if v := core.ConstVal(info, q.X); v == nil {
+				return true
+			} else if f, _ := constant.Float64Val(constant.ToFloat(v)); f != 1.0 {
+				return true
+			}
+			l0, ok0 := core.Unparen(as.Lhs[0]).(*ast.SelectorExpr)
+			l1, ok1 := core.Unparen(as.Lhs[1]).(*ast.SelectorExpr)
+			if ok0 && ok1 && l0.Sel.Name == "DashOffset" && l1.Sel.Name == "Dashes" {
+				good = true
+			}
+			return true
+		})
+		if good {
+			r.OK("E11.svg-dash-units", key, c.Pos(firstDraw), "")
+		} else {
+			r.Fail("E11.svg-dash-units", key, c.Pos(firstDraw), "a shape is drawn with the style's dash array as the document gave it (user units): the renderers multiply it by the stroke width once more")
+		}
+	}
+	r.Count("E11.svg-dash-units", n)
+	r.Floor("E11.svg-dash-units", 1)
+}
